@@ -280,6 +280,17 @@ func makeIntrinsics() map[string]intrinsic {
 		c.keys, c.orig, c.vals = append(c.keys, StrConst(key)), append(c.orig, nil), append(c.vals, v)
 		return nil
 	}
+	m["strings.Repeat"] = func(st *State, fr *frame, a []value, cc *ssa.CallCommon) value {
+		s, ok1 := a[0].(*Str).Concrete()
+		n, ok2 := asConcreteInt(a[1])
+		if !ok1 || !ok2 || a[0].(*Str).Blob != nil {
+			panic(pathEnd{kind: "unsupported", msg: "strings.Repeat on symbolic arguments"})
+		}
+		if n < 0 {
+			panic(pathEnd{kind: "panic", msg: "strings: negative Repeat count"})
+		}
+		return StrConst(strings.Repeat(s, n))
+	}
 	m[V+"Aborts"] = func(st *State, fr *frame, a []value, cc *ssa.CallCommon) value {
 		cl := a[0].(*closure)
 		aborted := false
@@ -1675,25 +1686,77 @@ func makeIntrinsics() map[string]intrinsic {
 		return tuple{p, iface{}}
 	}
 	// ---- codec blobs -------------------------------------------------------------------
+	// the length of an encoded document is not free: at least the bytes of its fields, at most six times that (JSON
+	// escapes) plus the keys and punctuation
+	icsLen := func(st *State, data value) *Term {
+		l := st.freshVar("ics20_len", BV(64))
+		sum := BVConstI(0, 64)
+		if sv, ok := data.(structure); ok {
+			for _, f := range sv {
+				if fs, ok := f.(*Str); ok {
+					sum = BVBin("bvadd", sum, fs.Len)
+				}
+			}
+		}
+		st.assume(BVCmp("bvuge", l, sum))
+		st.assume(BVCmp("bvule", l, BVBin("bvadd", BVBin("bvmul", sum, BVConstI(6, 64)), BVConstI(200, 64))))
+		return l
+	}
 	m[V+"EncodeICS20"] = func(st *State, fr *frame, a []value, cc *ssa.CallCommon) value {
-		return &Str{Len: st.freshVar("ics20_len", BV(64)), Blob: icsBlob{data: copyVal(a[0])}}
+		return &Str{Len: icsLen(st, a[0]), Blob: icsBlob{data: copyVal(a[0])}}
 	}
 	m[V+"EncodeICS20Wire"] = func(st *State, fr *frame, a []value, cc *ssa.CallCommon) value {
 		w, ok := asConcreteInt(a[1])
 		if !ok {
 			panic(pathEnd{kind: "unsupported", msg: "symbolic wire form"})
 		}
-		return &Str{Len: st.freshVar("ics20_len", BV(64)), Blob: icsBlob{data: copyVal(a[0]), wire: w}}
+		return &Str{Len: icsLen(st, a[0]), Blob: icsBlob{data: copyVal(a[0]), wire: w}}
 	}
 	m[V+"EncodeICS20Unknown"] = func(st *State, fr *frame, a []value, cc *ssa.CallCommon) value {
-		return &Str{Len: st.freshVar("ics20_len", BV(64)), Blob: icsBlob{data: copyVal(a[0]), unknown: true}}
+		return &Str{Len: icsLen(st, a[0]), Blob: icsBlob{data: copyVal(a[0]), unknown: true}}
 	}
 	m[V+"Garbage"] = func(st *State, fr *frame, a []value, cc *ssa.CallCommon) value {
-		return &Str{Len: st.freshVar("garbage_len", BV(64))}
+		return StrConst("\x00not json") // (exactly what the native side sends)
+	}
+	// the same for memos: the document is at least as long as the byte fields inside the payload and not much longer
+	var strLens func(v value, depth int) *Term
+	strLens = func(v value, depth int) *Term {
+		sum := BVConstI(0, 64)
+		if depth > 12 {
+			return sum
+		}
+		switch x := v.(type) {
+		case *Str:
+			if x != nil {
+				sum = x.Len
+			}
+		case structure:
+			for _, f := range x {
+				sum = BVBin("bvadd", sum, strLens(f, depth+1))
+			}
+		case []value:
+			for _, f := range x {
+				sum = BVBin("bvadd", sum, strLens(f, depth+1))
+			}
+		case *value:
+			if x != nil {
+				sum = strLens(*x, depth+1)
+			}
+		case iface:
+			sum = strLens(x.v, depth+1)
+		}
+		return sum
+	}
+	memoLen := func(st *State, wrapper value) *Term {
+		l := st.freshVar("memo_len", BV(64))
+		sum := strLens(wrapper, 0)
+		st.assume(BVCmp("bvuge", l, BVConstI(2, 64)))
+		st.assume(BVCmp("bvule", l, BVBin("bvadd", BVBin("bvmul", sum, BVConstI(6, 64)), BVConstI(8192, 64))))
+		return l
 	}
 	m[V+"EncodeMemo"] = func(st *State, fr *frame, a []value, cc *ssa.CallCommon) value {
 		n, _ := asConcreteInt(a[1])
-		return &Str{Len: st.freshVar("memo_len", BV(64)), Blob: memoBlob{a[0], n, 0}}
+		return &Str{Len: memoLen(st, a[0]), Blob: memoBlob{a[0], n, 0}}
 	}
 	m[V+"EncodeMemoTail"] = func(st *State, fr *frame, a []value, cc *ssa.CallCommon) value {
 		n, _ := asConcreteInt(a[1])
@@ -1701,7 +1764,7 @@ func makeIntrinsics() map[string]intrinsic {
 		if !ok {
 			panic(pathEnd{kind: "unsupported", msg: "symbolic memo tail"})
 		}
-		return &Str{Len: st.freshVar("memo_len", BV(64)), Blob: memoBlob{a[0], n, t}}
+		return &Str{Len: memoLen(st, a[0]), Blob: memoBlob{a[0], n, t}}
 	}
 	m[V+"DecodeJSON"] = func(st *State, fr *frame, a []value, cc *ssa.CallCommon) value {
 		mb, ok := asStr(a[0]).Blob.(memoBlob)
@@ -1964,13 +2027,19 @@ func makeIntrinsics() map[string]intrinsic {
 			i++
 			arg := args[ai].(iface)
 			ai++
-			switch f[i] {
-			case 'd':
-				out = st.concat(out, st.decimal(arg.v.(*Term)))
-			case 's':
-				out = st.concat(out, arg.v.(*Str))
+			dT, isT := arg.v.(*Term)
+			sT, isS := arg.v.(*Str)
+			switch {
+			case i >= len(f):
+				return &Str{Len: st.freshVar("fmt_len", BV(64)), Blob: fmtBlob{}}
+			case f[i] == 'd' && isT:
+				out = st.concat(out, st.decimal(dT))
+			case f[i] == 's' && isS:
+				out = st.concat(out, sT)
 			default:
-				panic(pathEnd{kind: "unsupported", msg: "Sprintf verb " + string(f[i])})
+				// any other verb (%v, %q, %x, widths, ...): the text is not modelled — an abstract string whose bytes
+				// exist only natively (code that inspects them ends the path; log lines and error texts do not)
+				return &Str{Len: st.freshVar("fmt_len", BV(64)), Blob: fmtBlob{}}
 			}
 		}
 		return out
